@@ -66,6 +66,8 @@ func runC06(c *an.Ctx) {
 	c06mapKey(c)
 	c06shallowest(c)
 	memoRule(c, "C06.cache")
+	c06indexArgs(c, "C06.same")
+	c06methodSet(c)
 }
 
 func c06bounds(c *an.Ctx) { boundsRule(c, "C06.bounds") }
@@ -523,6 +525,124 @@ func c06shallowest(c *an.Ctx) {
 	}
 	c.Check(ok, "C06.cache", "buildCache/shallowest-wins", bc.Pos(), "an entry of the field cache is written only where none exists or the new index path is not longer than the old one",
 		"buildCache overwrites an entry of the field cache without comparing depths: a field promoted from an embedded struct replaces the outer field of the same name declared before it, and {{ .Name }} yields the embedded struct's value")
+}
+
+// c06indexArgs: resolveIndex is told the member either as a value (index) or as a name (indexAsStr) and
+// recognises "as a name" by the name being non-empty.  Every caller therefore passes as the name either
+// the constant "" (next to a value) or an element of a field/chain node's list of identifiers (which the
+// lexer never leaves empty) — never an arbitrary string that may be empty, such as a string literal of
+// the template: a[""] would then arrive as "no member at all".
+func c06indexArgs(c *an.Ctx, rule string) {
+	p := c.P
+	n := 0
+	for _, f := range p.Units() {
+		if f.Pkg != p.Jet || f.Body == nil {
+			continue
+		}
+		info := f.Info()
+		for i, call := range p.CallsIn(f, "jet.resolveIndex") {
+			if len(call.Args) != 3 {
+				continue
+			}
+			n++
+			key := f.Name + "/resolveIndex-name"
+			if i > 0 {
+				key += "#" + itoa(i+1)
+			}
+			name := an.Unparen(call.Args[2])
+			ok := false
+			if tv, isConst := info.Types[name]; isConst && tv.Value != nil && tv.Value.ExactString() == `""` {
+				ok = true
+			}
+			for _, o := range valueOrigins(f, name, 0) {
+				if ix, isIx := an.Unparen(o).(*ast.IndexExpr); isIx {
+					switch p.FieldKey(info, ix.X) {
+					case "FieldNode.Ident", "ChainNode.Field":
+						ok = true
+					}
+					// a local slice that holds one of these lists
+					for _, lo := range valueOrigins(f, ix.X, 0) {
+						switch p.FieldKey(info, lo) {
+						case "FieldNode.Ident", "ChainNode.Field":
+							ok = true
+						}
+					}
+				}
+			}
+			c.Check(ok, rule, key, call.Pos(), "the member name handed to resolveIndex is \"\" or an identifier of a field/chain node",
+				f.Name+" hands resolveIndex a name ("+an.Str(name)+") that may be empty: resolveIndex takes an empty name for \"no name given\" and looks at the (absent) index value instead, so a[\"\"] fails or yields nothing although the entry exists")
+		}
+	}
+	c.Expect(rule, "calls of resolveIndex", n, 5)
+}
+
+// c06methodSet: "methods on values and on pointers" — resolveIndex looks a method up on the address of
+// the value whenever the value is addressable and is neither a pointer nor an interface (whatever its
+// kind: a named slice, map or integer type has pointer-receiver methods too); the lookup on the value
+// itself happens only where one of the three is known not to hold.
+func c06methodSet(c *an.Ctx) {
+	p := c.P
+	f := c.Fn("C06.same", "resolveIndex")
+	if f == nil {
+		return
+	}
+	info := f.Info()
+	var bad token.Pos
+	var badFacts []string
+	n := 0
+	x := p.NewExplorer(f, an.Hooks{
+		PreAssign: func(x *an.Explorer, lhs, rhs ast.Expr, stmt ast.Node, st *an.State) {
+			id, ok := an.Unparen(lhs).(*ast.Ident)
+			if !ok || rhs == nil {
+				return
+			}
+			if call, ok := an.Unparen(rhs).(*ast.CallExpr); ok && an.CalleeName(info, call) == "(reflect.Value).Addr" {
+				st.Set("addr:"+id.Name, "1")
+			} else {
+				st.Set("addr:"+id.Name, "")
+			}
+		},
+		Call: func(x *an.Explorer, call *ast.CallExpr, st *an.State) {
+			if an.CalleeName(info, call) != "(reflect.Value).MethodByName" {
+				return
+			}
+			recv, ok := an.Unparen(an.Receiver(call)).(*ast.Ident)
+			if !ok {
+				return
+			}
+			n++
+			if st.Get("addr:"+recv.Name) != "" {
+				return
+			}
+			r := recv.Name
+			okPath := false
+			for k, v := range st.Facts {
+				pk := strings.ReplaceAll(an.PlainKey(k), " ", "")
+				switch {
+				case v && (pk == "reflect.Interface=="+r+".Kind()" || pk == r+".Kind()==reflect.Interface"),
+					v && (pk == "reflect.Ptr=="+r+".Kind()" || pk == r+".Kind()==reflect.Ptr" || pk == "reflect.Pointer=="+r+".Kind()" || pk == r+".Kind()==reflect.Pointer"),
+					!v && pk == r+".CanAddr()":
+					okPath = true
+				}
+			}
+			if !okPath && !bad.IsValid() {
+				bad, badFacts = call.Pos(), an.Facts(st)
+			}
+		},
+	})
+	x.Run(nil)
+	c.States += x.Visited
+	key := "resolveIndex/method-set"
+	switch {
+	case x.Undecided != "":
+		c.Undecided("C06.same", key, f.Pos(), "%s", x.Undecided)
+	case n == 0:
+		c.Anchor("C06.same", "MethodByName lookup in resolveIndex")
+	case bad.IsValid():
+		c.Bad("C06.same", key, bad, badFacts, "resolveIndex looks a method up on the value itself on a path where the value may be addressable and neither pointer nor interface: methods declared on *T are not found for a T that is not a struct (named slice, map, integer …)")
+	default:
+		c.OK("C06.same", key, f.Pos(), "a method is looked up on the address of every addressable non-pointer, non-interface value")
+	}
 }
 
 func findIdentArg(ret *ast.ReturnStmt) (*ast.Ident, bool) {
